@@ -65,6 +65,12 @@ fn forms() -> Vec<Form> {
     Form { name: "dynamic-import", place: Place::Body, media: CODE, literal: true, build: |l, _, n| (format!("const di{n} = await import({l});\n"), vec![("dynamic:import".into(), None, false)]) },
     Form { name: "dynamic-import-with-attribute", place: Place::Body, media: CODE, literal: true, build: |l, _, n| (format!("const dj{n} = await import({l}, {{ with: {{ type: \"json\" }} }});\n"), vec![("dynamic:import".into(), Some("json".into()), false)]) },
     Form { name: "nested-dynamic-import", place: Place::Body, media: CODE, literal: true, build: |l, _, n| (format!("function f{n}() {{ return import({l}); }}\n"), vec![("dynamic:import".into(), None, false)]) },
+    Form { name: "import-type-in-namespace", place: Place::Body, media: TSX, literal: true, build: |l, _, n| (format!("namespace NS{n} {{ export type I = import({l}).X; }}\n"), vec![("static:importType".into(), None, false)]) },
+    Form { name: "dynamic-import-in-namespace", place: Place::Body, media: TSX, literal: true, build: |l, _, n| (format!("namespace ND{n} {{ export const d = import({l}); }}\n"), vec![("dynamic:import".into(), None, false)]) },
+    Form { name: "import-type-in-declare-global", place: Place::Body, media: TSX, literal: true, build: |l, _, n| (format!("export {{}};\ndeclare global {{ type G{n} = import({l}).X; }}\n"), vec![("static:importType".into(), None, false)]) },
+    Form { name: "import-equals-in-namespace", place: Place::Body, media: TSX, literal: true, build: |l, _, n| (format!("namespace NQ{n} {{ import q = require({l}); export const v = q; }}\n"), vec![("static:importEquals".into(), None, false)]) },
+    Form { name: "dynamic-import-in-class-method", place: Place::Body, media: CODE, literal: true, build: |l, _, n| (format!("class K{n} {{ m() {{ return import({l}); }} }}\n"), vec![("dynamic:import".into(), None, false)]) },
+    Form { name: "dynamic-import-in-static-block", place: Place::Body, media: CODE, literal: true, build: |l, _, n| (format!("class S{n} {{ static {{ import({l}); }} }}\n"), vec![("dynamic:import".into(), None, false)]) },
     Form { name: "import-type-expression", place: Place::Body, media: TS, literal: true, build: |l, _, n| (format!("export type I{n} = import({l}).X;\n"), vec![("static:importType".into(), None, false)]) },
     Form { name: "import-equals", place: Place::Body, media: TSX, literal: true, build: |l, _, n| (format!("import q{n} = require({l});\n"), vec![("static:importEquals".into(), None, false)]) },
     Form { name: "declare-module", place: Place::Body, media: TS, literal: true, build: |l, _, n| (format!("declare module {l} {{ export const g{n}: number; }}\n"), vec![("static:maybeTsModuleAugmentation".into(), None, false)]) },
